@@ -906,53 +906,7 @@ def judge(chk, c, im, v, structural=True):
 
 
 def build_reported(chk):
-    """Optional second part of the closure: props/C02_reported.v composes MajorProofs with the enumeration loop of C05
-    (theories/Enum.v, proofs/EnumProofs.v, owned by the C05 check).  If C05's own files do not build, that is C05's broken
-    obligation and the composition is skipped with a note; if they build, the composition is an obligation of C02."""
-    import fcntl, re
-    coq = common.COQ
-    if not os.path.exists(os.path.join(coq, "props", "C02_reported.v")) or not os.path.exists(os.path.join(coq, "proofs", "EnumProofs.v")):
-        chk.notes.append("[C02] composition with the enumeration loop (props/C02_reported.v) not present: skipped")
-        return
-    lock = open(os.path.join(coq, ".build.lock"), "w")
-    fcntl.flock(lock, fcntl.LOCK_EX)
-    try:
-        rc, out = common._sh(["timeout", "1200", "make", "-j8", "proofs/EnumProofs.vo"], cwd=coq, timeout=1300)
-        if rc != 0:
-            chk.notes.append("[C02] composition with the enumeration loop skipped: proofs/EnumProofs.v (property C05) does not build")
-            return
-        rc, out = common._sh(["timeout", "900", "make", "proofs/MajorEnumProofs.vo"], cwd=coq, timeout=1000)
-        if rc != 0:
-            chk.broken.append(("obligation", "coq-build:proofs/MajorEnumProofs.v", out[-2000:]))
-            return
-        rc, out = common._sh(["timeout", "600", "coqc"] + common.COQ_FLAGS + ["props/C02_reported.v"], cwd=coq, timeout=700)
-        open(os.path.join(coq, "props", "C02_reported.out"), "w").write(out)
-        if rc != 0:
-            chk.broken.append(("obligation", "coq-props:C02_reported.v", out[-2000:]))
-            return
-        ass = common.parse_assumptions(out)
-        for thm, ax in ass.items():
-            if ax:
-                chk.broken.append(("obligation", f"assumptions:{thm}", "depends on: " + ", ".join(ax)))
-        n = 0
-        for f in ("proofs/MajorEnumProofs.v", "props/C02_reported.v"):
-            nocom = common.strip_comments(open(os.path.join(coq, f)).read())
-            for mm in common.FORBIDDEN.finditer(nocom):
-                chk.broken.append(("obligation", f"audit:{f}", f"forbidden token {mm.group(0)!r}"))
-            if not common.sections_balanced(nocom):
-                chk.broken.append(("obligation", f"audit:{f}", "Variable/Hypothesis outside a Section"))
-            n += len(re.findall(r"\b(Qed|Defined)\s*\.", nocom))
-        if chk.build_info is not None:
-            chk.build_info.assumptions.update(ass)
-            chk.build_info.files += ["proofs/MajorEnumProofs.v", "props/C02_reported.v"]
-        chk.obligations += n
-        if not any(k == "obligation" and ("MajorEnum" in nm or "C02_reported" in nm) for k, nm, _ in chk.broken):
-            chk.discharged += n
-        chk.notes.append(f"[C02] composition with the enumeration loop of C05 checked: {len(ass)} theorems in props/C02_reported.v "
-                         "(premises: solver contract of C05)")
-    finally:
-        fcntl.flock(lock, fcntl.LOCK_UN)
-        lock.close()
+    common.build_reported(chk, "C02", "proofs/MajorEnumProofs.v", "props/C02_reported.v")
 
 
 def run(chk):
